@@ -178,6 +178,17 @@ where T::Signed: H + core::ops::Add<Output = T::Signed>, T::Float: H + core::ops
                         let got = (x.as_i128() - off::<T>()) as f64;
                         let tol = 2.0 + exact.abs() * (2.0f64).powi(2 - fprec as i32) + amp.abs() * (2.0f64).powi(1 - fprec as i32);
                         if (got - exact).abs() > tol { st.oracle_fail("mul_amp is not (signed amplitude x gain) within float precision", &case, &exact.to_string(), &got.to_string()); } else { st.oracle_ok(1); }
+                        // exact oracle where the format fits its float companion's mantissa: the normalised-float conversion
+                        // is exact, the product is ONE float multiplication, and converting back truncates toward equilibrium
+                        if T::BITS <= fprec {
+                            let scale = (2.0f64).powi(T::BITS as i32 - 1);
+                            let xf = amp / scale;
+                            let p = if fprec == 24 { ((xf * af) as f32) as f64 } else { xf * af };   // f32 operands: the f64 product is exact, one rounding
+                            if p.abs() < 1.0 {
+                                let want = (p * scale).trunc() as i128 + off::<T>();
+                                if x.as_i128() != want { st.oracle_fail("mul_amp is not the product of the normalised-float conversion and the gain converted back (truncated toward equilibrium)", &case, &want.to_string(), &x.as_i128().to_string()); } else { st.oracle_ok(1); st.count("mul_amp exact oracle"); }
+                            }
+                        }
                     }
                 }
             }
